@@ -26,6 +26,18 @@ DIRECTIONS = {
         "class attribute or a module-level object; python pitfalls (is vs ==, int vs bytes, truthiness of 0/empty, "
         "late-binding closures, shared list multiplication, bytes vs bytearray, rounding mode, integer vs float division). "
         "Avoid what the earlier notes below already did."),
+    6: ("Welcome directions this round: behaviour that only shows LATE or at SCALE - after a counter wrapped (the 3-bit fast-packet "
+        "sequence counter, the 5-bit frame counter, more than 255 / 65535 of something), after a time threshold (the 10-minute "
+        "discovery window, the retry back-off reaching its cap, a date or midnight roll-over, timestamps), with the largest legal "
+        "inputs (223-byte fast packets, 31 frames, 64 KiB lines, 64-bit fields, the highest PGN / source / priority values), only on "
+        "the SECOND use of something (second connection after a reconnect, second message on a stream, second decoder in the process, "
+        "second call of a method on the same object), only for ONE of the wire formats / client types / field types while the others "
+        "keep working, or only when TWO features are combined (filters + network map, unit preferences + dump file, send during "
+        "reconnect, close during send). Also welcome: a change in error handling that turns a handled condition into an unhandled one "
+        "or vice versa (exception class, re-raise, finally block, early return inside try), resource handling (a task / file / "
+        "transport that is not released or is released twice), and mistakes in arithmetic on bytes and bits (shift by the wrong "
+        "amount only visible for values >= 128 or >= 2**31, signed vs unsigned, endianness of a multi-byte field that the tests only "
+        "exercise with palindromic or small values). Avoid what the earlier notes below already did."),
 }
 
 
